@@ -213,6 +213,35 @@ theorem spans_wellformed_all (a b : List Int) (hl : a.length = b.length) :
   have := spans_wellformed' neq (a.zip b)
   simpa [List.length_zip, hl] using this
 
+
+/-! ## span dtype: the int32 branch is only taken when every entry fits -/
+
+/-- with the real threshold `utils.INT64_INDEX_LENGTH = 2^31 - 1`, whenever an entry point chooses int32 for the span
+    array, every entry (they are all ≤ the row count) is at most the largest int32; `get_spans_for_field` compares with
+    `<`, the two-array and multi-array wrappers with `>` — both are safe. -/
+theorem span_values_fit_int32 {α} (ne : α → α → Bool) (xs : List α) :
+    (spanDtypeField INT64_INDEX_LENGTH xs.length = .i32 ∨ spanDtype2 INT64_INDEX_LENGTH xs.length xs.length = .i32 ∨
+      spanDtypeMulti INT64_INDEX_LENGTH xs.length = .i32) →
+    ∀ x ∈ spans ne xs, x ≤ 2 ^ 31 - 1 := by
+  intro hd x hx
+  have hle := le_getLast_of_pairwise' _ _ (spans_pairwise ne xs) (spans_getLast ne xs) x hx
+  have hn : xs.length ≤ 2 ^ 31 - 1 := by
+    unfold spanDtypeField spanDtype2 spanDtypeMulti INT64_INDEX_LENGTH at hd
+    rcases hd with hd | hd | hd
+    · by_cases h : xs.length < 2 ^ 31 - 1
+      · omega
+      · simp [h] at hd
+    · by_cases h : xs.length > 2 ^ 31 - 1
+      · simp [h] at hd
+      · omega
+    · by_cases h : xs.length > 2 ^ 31 - 1
+      · simp [h] at hd
+      · omega
+  omega
+
+example : spanDtypeField INT64_INDEX_LENGTH 5 = .i32 ∧ spanDtypeField 5 5 = .i64 ∧ spanDtype2 5 5 5 = .i32 ∧
+    spanDtype2 5 6 6 = .i64 := by decide
+
 /-! ## apply_spans_* : one entry per span, computed over exactly the rows of that span -/
 
 /-- count = number of rows of each span -/
